@@ -6,11 +6,13 @@
 cd "$(dirname "$0")"
 export GOFLAGS=-mod=mod GOPROXY=off GOSUMDB=off GOTOOLCHAIN=local GOCACHE="$PWD/.cache/gocache"
 mkdir -p .cache/bin .cache/run evidence replays harness/bin
-(cd tools/extract && go build -o ../../.cache/bin/extract .) || exit 1
-./.cache/bin/extract /repo lean/Logrange/Generated || exit 1
 cp /repo/go.sum harness/go.sum
 ids=$(python3 -c "import json;print(' '.join(c['property_id'] for c in json.load(open('MANIFEST.json'))['checks']))")
 rc=0
+for id in $ids; do
+  e=$(python3 -c "import json;print(' '.join(json.load(open('props/$id.json')).get('extract',[])))")
+  [ -n "$e" ] && { ./tools/extract/run.sh "$PWD" /repo $e || { echo "setup: extractor of $id failed"; rc=1; }; }
+done
 targets="Logrange.AuditCmd"
 for id in $ids; do
   targets="$targets $(python3 -c "import json;print(' '.join(json.load(open('props/$id.json'))['lean_targets']))")"
